@@ -153,6 +153,13 @@ func searchConcreteModel(P *Program, fr *FuncResult, s *SiteResult) (model map[s
 				asserts = append(asserts, ex.sle(v.Sl.Cap, ex.intConst(64)))
 			}
 		}
+		// ... and receiver slice fields of at most 8 elements
+		for _, in := range ex.inputs {
+			nm := ex.inputNames[in.String()]
+			if strings.HasPrefix(nm, "recv .") && (strings.HasSuffix(nm, ".len") || strings.HasSuffix(nm, ".cap")) {
+				asserts = append(asserts, ex.sle(in, ex.intConst(8)))
+			}
+		}
 		gv := ex.inputs
 		for _, rt := range o.Results {
 			if rt != nil && rt.IntVal == nil && len(rt.Args)+len(rt.Op) > 0 {
@@ -193,13 +200,89 @@ func tryReplayModel(P *Program, fr *FuncResult, s *SiteResult, verifDir string) 
 		return nil
 	}
 	fn := fr.Ex.fn
-	if fn.Signature.Recv() != nil || fn.TypeParams().Len() > 0 || fn.Pkg == nil {
-		return &ReplayResult{Summary: "no input synthesised (method or generic function: receiver/heap shapes are not reconstructed)"}
+	isMethod := fn.Signature.Recv() != nil
+	if (!isMethod && fn.TypeParams().Len() > 0) || (isMethod && fr.Ex.recvShape == nil) {
+		return &ReplayResult{Summary: "no input synthesised (generic function, or a receiver whose heap shape is not reconstructed)"}
 	}
 	names := fr.Ex.paramNames(fn, fr.Ex.spec)
 	var setup []string
 	var callArgs []string
+	recvExpr := ""
+	if isMethod {
+		// rebuild the receiver from the model: scalar fields, integer slices; type parameters become int
+		// (abstract element values are numbered, the zero value is 0)
+		rt := fr.Ex.recvType
+		tname := rt.Obj().Name()
+		if tp := rt.TypeParams(); tp != nil && tp.Len() > 0 {
+			var args []string
+			for i := 0; i < tp.Len(); i++ {
+				args = append(args, "int")
+			}
+			tname += "[" + strings.Join(args, ", ") + "]"
+		}
+		setup = append(setup, fmt.Sprintf("recv := new(%s)", tname))
+		for _, f := range fr.Ex.recvShape {
+			switch f.Kind {
+			case "scalar":
+				raw := strings.TrimSpace(s.Model["recv ."+f.Name])
+				if b, ok := f.Type.Underlying().(*types.Basic); ok && b.Info()&types.IsBoolean != 0 {
+					setup = append(setup, fmt.Sprintf("recv.%s = %v", f.Name, raw == "true"))
+					break
+				}
+				mv, ok := parseModelInt(raw)
+				if !ok {
+					return &ReplayResult{Summary: "no input synthesised (model lacks receiver field " + f.Name + ")"}
+				}
+				setup = append(setup, fmt.Sprintf("recv.%s = %s", f.Name, goIntLiteral(mv, f.Type)))
+			case "intslice", "tpslice":
+				arr, ok0 := parseModelInt(s.Model["recv ."+f.Name+".arr"])
+				ln, ok1 := parseModelInt(s.Model["recv ."+f.Name+".len"])
+				cp, ok2 := parseModelInt(s.Model["recv ."+f.Name+".cap"])
+				if !ok0 || !ok1 || !ok2 {
+					return &ReplayResult{Summary: "no input synthesised (model lacks the header of receiver field " + f.Name + ")"}
+				}
+				if arr.Sign() == 0 {
+					break // nil slice
+				}
+				if ln.Cmp(big.NewInt(16)) > 0 {
+					return &ReplayResult{Summary: fmt.Sprintf("not replayed: the model needs receiver field %s of length %s", f.Name, ln)}
+				}
+				if cp.Cmp(big.NewInt(64)) > 0 || cp.Cmp(ln) < 0 {
+					cp = new(big.Int).Set(ln)
+				}
+				elemT := "int"
+				if f.Kind == "intslice" {
+					elemT = types.TypeString(f.Type.Underlying().(*types.Slice).Elem(), func(p *types.Package) string { return "" })
+				}
+				setup = append(setup, fmt.Sprintf("recv.%s = make([]%s, %d, %d)", f.Name, elemT, ln.Int64(), cp.Int64()))
+				zero := strings.TrimSpace(s.Model["recvzero ."+f.Name])
+				numbering := map[string]int{}
+				for k := int64(0); k < ln.Int64(); k++ {
+					raw := strings.TrimSpace(s.Model[fmt.Sprintf("recvelem .%s %d", f.Name, k)])
+					if f.Kind == "intslice" {
+						ev, ok := parseModelInt(raw)
+						if !ok {
+							ev = big.NewInt(0)
+						}
+						setup = append(setup, fmt.Sprintf("recv.%s[%d] = %s", f.Name, k, goIntLiteral(ev, f.Type.Underlying().(*types.Slice).Elem())))
+						continue
+					}
+					if raw == "" || raw == zero {
+						continue
+					}
+					if _, ok := numbering[raw]; !ok {
+						numbering[raw] = len(numbering) + 1
+					}
+					setup = append(setup, fmt.Sprintf("recv.%s[%d] = %d", f.Name, k, numbering[raw]))
+				}
+			}
+		}
+		recvExpr = "recv."
+	}
 	for i, p := range fn.Params {
+		if isMethod && i == 0 {
+			continue
+		}
 		name := names[i]
 		v := fmt.Sprintf("a%d", i)
 		t := p.Type()
@@ -256,13 +339,22 @@ func tryReplayModel(P *Program, fr *FuncResult, s *SiteResult, verifDir string) 
 		}
 		callArgs = append(callArgs, v)
 	}
-	pkgName := fn.Pkg.Pkg.Name()
+	var tpkg *types.Package
+	if fn.Pkg != nil {
+		tpkg = fn.Pkg.Pkg
+	} else if fn.Object() != nil {
+		tpkg = fn.Object().Pkg()
+	}
+	if tpkg == nil {
+		return &ReplayResult{Summary: "no input synthesised (function without package)"}
+	}
+	pkgName := tpkg.Name()
 	nres := fn.Signature.Results().Len()
 	var lhs []string
 	for i := 0; i < nres; i++ {
 		lhs = append(lhs, fmt.Sprintf("r%d", i))
 	}
-	call := fmt.Sprintf("%s(%s)", fn.Name(), strings.Join(callArgs, ", "))
+	call := fmt.Sprintf("%s%s(%s)", recvExpr, fn.Name(), strings.Join(callArgs, ", "))
 	var body strings.Builder
 	fmt.Fprintf(&body, "package %s\n\nimport (\n\t\"fmt\"\n\t\"testing\"\n)\n\n", pkgName)
 	fmt.Fprintf(&body, "// generated by gocv from the model of obligation %s\nfunc TestGocvReplay(t *testing.T) {\n", s.Site)
@@ -277,6 +369,10 @@ func tryReplayModel(P *Program, fr *FuncResult, s *SiteResult, verifDir string) 
 		var cmpArgs []string
 		for i := 0; i < nres; i++ {
 			rt := fn.Signature.Results().At(i).Type()
+			if _, isTP := rt.(*types.TypeParam); isTP {
+				cmpArgs = append(cmpArgs, "\"?\"") // instantiated with int: abstract values are not compared
+				continue
+			}
 			switch tt := rt.Underlying().(type) {
 			case *types.Basic:
 				if tt.Info()&(types.IsInteger|types.IsBoolean) != 0 {
@@ -303,7 +399,7 @@ func tryReplayModel(P *Program, fr *FuncResult, s *SiteResult, verifDir string) 
 	defer os.RemoveAll(dir)
 	testFile := filepath.Join(dir, "zz_gocv_replay_test.go")
 	os.WriteFile(testFile, []byte(body.String()), 0o644)
-	pkgDir := filepath.Join(P.Repo, strings.TrimPrefix(strings.TrimPrefix(fn.Pkg.Pkg.Path(), modulePath), "/"))
+	pkgDir := filepath.Join(P.Repo, strings.TrimPrefix(strings.TrimPrefix(tpkg.Path(), modulePath), "/"))
 	ov := map[string]map[string]string{"Replace": {filepath.Join(pkgDir, "zz_gocv_replay_test.go"): testFile}}
 	ovb, _ := json.Marshal(ov)
 	ovFile := filepath.Join(dir, "overlay.json")
